@@ -342,10 +342,13 @@ func checkC10(c *Ctx) {
 		"then an empty filling and a random filling of the translated value through ReverseTranslate vs the model; oracles: empty => entirely unset; error/ok class. non-trivial: chain length >= 2 and a nested struct; distinct = by request text"
 	n := c.scale(1500, 50000)
 	for i := 0; i < n; i++ {
-		g := &envTypeGen{r: r, used: map[string]bool{}, alias: r.Chance(40), embed: r.Chance(40), colls: r.Chance(40)}
+		g := &envTypeGen{r: r, used: map[string]bool{}, alias: r.Chance(40), embed: r.Chance(40), colls: r.Chance(40), empties: r.Chance(50)}
 		saved := envLeafTypes
 		envLeafTypes = c10LeafTypes
 		T := g.genStruct(1+r.Intn(3), nil, nil)
+		if ts := T.String(); strings.Contains(ts, "struct {}") || strings.Contains(ts, "hidden int") {
+			res.Count("types/with-a-struct-field-that-has-no-exported-field")
+		}
 		envLeafTypes = saved
 		if T.NumField() == 0 {
 			continue
